@@ -707,10 +707,11 @@ async fn pingpong<S: Socket>(kind: Kind, mut a: Connection<S>, mut b: Connection
 
 fn pingpong_case(kind: Kind, seed: u64, rep: &mut Report) {
     let mut rng = Rng::derive(seed, 1920);
-    // every multiple of the 256-byte buffer step up to 4 KiB with its neighbours, some larger multiples, random sizes
+    // multiples of the 256-byte buffer step with their neighbours (all well below the kernel socket buffer: the
+    // sender does not read while it sends), random sizes
     let mut targets: Vec<usize> = Vec::new();
     let base = rng.range(1, 16);
-    for m in [base, base + 16 * rng.range(1, 6), *rng.pick(&[64usize, 128, 256, 257, 1024])] {
+    for m in [base, base + 16 * rng.range(1, 6), *rng.pick(&[64usize, 128, 256, 257, 300])] {
         for d in [-1isize, 0, 1] {
             targets.push((256 * m as isize + d) as usize);
         }
